@@ -6,6 +6,8 @@ import json, os, subprocess, sys
 
 V1, V2 = sys.argv[1], sys.argv[2]
 THEME = {
+ "W": "a change in an INPUT READER OR ITS PLUMBING — fixed-column slicing, tokenising (Explode / strings.Fields / Split), header maps and aliases, the polygon / soil / crop-parameter / rotation / automan / fertiliser-table / measurement / weather-header readers, id matching (prefix vs equality, trimming, case), end-of-file and blank-line handling, defaults for absent optional cells — so that for the shipped files nothing changes but for another valid file (different column widths, optional columns present or absent, a longer id, trailing blanks, CRLF, a second field in the same file, an extra header line) the model is fed something other than what the file says, which breaks the property",
+ "X": "a change whose effect only shows in the LONG RUN or at a TURN: after the first year change, in the second pass through a crop rotation, on the first day after harvest or before sowing, when a counter or cursor wraps or an array of fixed size fills up, when a cumulative sum is reset (annual output date) or NOT reset, in a leap year following a regular one, when the simulation starts in mid-year — state carried from one period into the next (stale, doubled or lost) rather than anything visible on an ordinary day in the middle of a season",
  "U": "the REMOVAL OR WEAKENING OF SOMETHING THAT LOOKS REDUNDANT: a guard, clamp, reset, re-initialisation, validation, error return, bounds test or second computation is deleted, merged with a neighbouring one or made conditional because another site 'already covers it' — which is true for the shipped examples and for the common path but not for some input, state or order of events. The diff should mostly remove or simplify code and carry a convincing 'dead code / duplicate check / already guaranteed by X' story",
  "V": "a change in the INFRASTRUCTURE LAYER through which the property's quantities are read, carried or reported rather than in the model equations: the reflection-based output binding and record writers, the file pool and session, path and file-name construction, the configuration/defaults plumbing, the line/CSV tokenisers and header maps, struct constructors and array sizes (NewGlobalVarsMain, DualType offsets), channel/dispatcher plumbing in the mains — so that for some input the model computes the right thing but the property as observed by a user of the program (files, records, errors, which run wrote what) is broken, or the model is fed something slightly different from what the input says",
  "S": "a GO-LANGUAGE PITFALL that compiles and reads naturally: a shadowed variable (:= instead of =) so that an outer value is never updated, an array copied by value (or a slice aliased) where the other was meant, a range loop that works on copies of struct elements, integer division or a float-to-int truncation where a float/rounding was meant, an off-by-one between a 0-based Index and a 1-based Num, a map lookup whose zero value is silently used, a deferred call or an early return that skips a later update, string slicing at a fixed column that is right for the shipped files only — introduced under a plausible clean-up or feature story",
